@@ -61,12 +61,20 @@ class Outcome:
         return self.viol.klass if self.viol is not None else None
 
 
-def execute(mod, tier, tape, excl=True):
-    """a pure function of (code, tape values)"""
+def execute(mod, tier, tape, excl=True, literal=None):
+    """a pure function of (code, tape values) — or of (code, literal scenario) for modules with generate/execute"""
     core.reset_process_globals()
     ctx = RunCtx(tape, tier, mod.ID, excl=excl)
     try:
-        mod.run(ctx)
+        if hasattr(mod, "generate"):
+            # scenario = the full decision record; execution is tape-free (round-trip through JSON so that search
+            # and literal replay take exactly the same code path)
+            sc = literal if literal is not None else json.loads(json.dumps(mod.generate(ctx), default=repr))
+            ctx.scenario = sc
+            ctx.tape = None
+            mod.execute(ctx, sc)
+        else:
+            mod.run(ctx)
         return Outcome("ok", ctx)
     except Violation as v:
         return Outcome("violation", ctx, viol=v)
@@ -177,7 +185,10 @@ def replay_file(path):
     with open(path) as f:
         doc = json.load(f)
     mod = prop_module(doc["property"])
-    o = run_values(mod, doc.get("tier", "quick"), doc["tape"], doc.get("excl", True))
+    if hasattr(mod, "execute") and doc.get("scenario") is not None:
+        o = execute(mod, doc.get("tier", "quick"), Tape(values=[]), excl=doc.get("excl", True), literal=doc["scenario"])
+    else:
+        o = run_values(mod, doc.get("tier", "quick"), doc["tape"], doc.get("excl", True))
     want = (doc["violation"]["oracle"], doc["violation"]["kind"])
     return (o.status == "violation" and o.klass == want), o, doc
 
@@ -189,7 +200,9 @@ def cmd_replay(path):
         env = dict(os.environ, PYTHONHASHSEED=want_hs)
         return subprocess.call([PY, os.path.abspath(__file__), "replay", path], env=env)
     rep, o, doc = replay_file(path)
-    if doc.get("scenario") and json.loads(json.dumps(o.ctx.scenario, default=repr)) != doc["scenario"] and not rep:
+    mod = prop_module(doc["property"])
+    if (not hasattr(mod, "execute")) and doc.get("scenario") and \
+            json.loads(json.dumps(o.ctx.scenario, default=repr)) != doc["scenario"] and not rep:
         # the generators changed since the file was written: the tape no longer denotes the recorded scenario
         print(f"ERROR replay of {path}: scenario drift (generator code changed since the replay file was written)")
         return 3
